@@ -151,7 +151,8 @@ void rand_redirects(G &g, StartSpec &s) {
 
 void make_invalid(G &g, StartSpec &s) {
   const ShimConsts &C = g.C;
-  switch (g.r.below(9)) {
+  switch (g.r.below(10)) {
+    case 9: s.argv_empty = true; break;  // an array with nothing in it, in fork mode or not
     case 0: s.in.type = C.R_HANDLE; s.in.handle = 0; break;
     case 1: s.out.type = C.R_FILE; s.out.file = 0; break;
     case 2: s.err.type = C.R_PATH; s.err.path = 0; break;
@@ -334,6 +335,20 @@ Plan gen_c02(uint64_t seed, const GenOpts &o) {
       if (i + 1 < pieces && g.chance(15)) c.script.push_back(Step{ Step::CLOSE, g.chance(50) ? 1 : 2, 0, 0 });
     }
   }
+  // one output stream ends early while the other keeps producing small pieces for a while: whatever the library concludes from
+  // the hang-up of the first must not touch the second
+  bool split_streams = !echo && g.chance(10);
+  if (split_streams) {
+    c.script.clear();
+    int first = g.chance(50) ? 1 : 2, other = 3 - first;
+    if (g.chance(60)) c.script.push_back(Step{ Step::WRITE, first, g.pick({ 1, 20, 5000 }), 0 });
+    c.script.push_back(Step{ Step::CLOSE, first, 0, 0 });
+    int kp = (int) g.r.range(2, 6);
+    for (int i = 0; i < kp; i++) {
+      c.script.push_back(Step{ Step::SLEEP, 0, g.pick({ 1, 3, 10 }), 0 });
+      c.script.push_back(Step{ Step::WRITE, other, g.pick({ 1, 10, 300 }), 0 });
+    }
+  }
   int64_t in_total_pre = reads_in ? size_pick() / (echo ? 4 : 1) : 0;
   int64_t echunk = g.pick({ 1, 100, 4096 });
   while (in_total_pre / echunk > 3000) echunk *= 8;
@@ -346,6 +361,7 @@ Plan gen_c02(uint64_t seed, const GenOpts &o) {
   StartSpec s = simple_start(g, 0);
   s.nonblocking = g.chance(40);
   int errmode = (int) g.r.below(4);  // 0 own pipe, 1 -> stdout, 2 discard, 3 parent
+  if (split_streams) errmode = 0;
   s.err.type = errmode == 0 ? g.C.R_PIPE : errmode == 1 ? g.C.R_STDOUT : errmode == 2 ? g.C.R_DISCARD : g.C.R_DEFAULT;
   int64_t in_total = in_total_pre;
   bool use_input = reads_in && g.chance(30) && in_total <= (int64_t) cap;
@@ -532,6 +548,7 @@ Plan gen_start_scenario(uint64_t seed, const GenOpts &o, const char *name) {
     for (int i = 0; i < ni; i++) g.p.w.ignored.push_back((int) g.r.range(1, 31));
     for (int i = 0; i < nhd; i++) g.p.w.handled.push_back((int) g.r.range(1, 64));
     g.p.w.sigpipe = (int) g.pick({ 0, 1, 1, 2 });  // these plans never write to a pipe themselves
+    g.p.w.sa_flags = g.chance(40);
   }
   g.add_child(child_quiet(g.pick({ 0, 5 }), false, (int) g.r.below(256)));
   StartSpec s = rand_scenario(g, 0);
@@ -626,7 +643,12 @@ Plan gen_c06(uint64_t seed, const GenOpts &o) {
       case 2: g.op(OP_TERMINATE, h); break;
       case 3: g.op(OP_KILL, h); break;
       case 4: case 5: g.op(OP_WAIT, h).a = g.pick({ 0, 5, 50, 200 }); break;
-      case 6: { Op &op = g.op(OP_STOP, h); int st[6]; rand_stop(g, st, false, false); op.a = st[0]; op.b = st[1]; op.c = st[2]; op.d = st[3]; op.e = st[4]; op.f = st[5]; break; }
+      case 6: {
+        Op &op = g.op(OP_STOP, h); int st[6]; rand_stop(g, st, false, false);
+        // "make sure it is dead": kill and wait for as long as it takes (a kill cannot be ignored, so this always ends)
+        if (g.chance(20)) { st[0] = g.C.S_KILL; st[1] = g.C.INFINITE_; st[2] = st[4] = g.C.S_NOOP; st[3] = st[5] = 0; }
+        op.a = st[0]; op.b = st[1]; op.c = st[2]; op.d = st[3]; op.e = st[4]; op.f = st[5]; break;
+      }
       case 7: { g.op(OP_DESTROY, h); g.op(OP_NEW, h); break; }
       case 8: g.op(OP_SLEEP, -1).a = g.pick({ 1, 10, 50 }); break;
       case 9: g.op(OP_PID, h); break;
@@ -1037,7 +1059,7 @@ Plan gen_c16(uint64_t seed, const GenOpts &o) {
     if (g.chance(15)) g.fault((int) g.p.ops.size() - 1, K_realloc, (int) g.r.range(1, 6), false, F_NULL);
     else if (g.chance(10)) g.fault((int) g.p.ops.size() - 1, g.chance(50) ? K_poll : K_read, (int) g.r.range(1, 4), false, EINTR);
     else if (g.chance(5)) g.fault((int) g.p.ops.size() - 1, K_calloc, (int) g.r.range(1, 4), false, F_NULL);
-    if (g.chance(30)) { Op &d2 = g.op(OP_DRAIN, 0); sinks(d2); d2.c = 0; }
+    if (g.chance(30)) { Op &d2 = g.op(OP_DRAIN, 0); sinks(d2); d2.c = 0; if (g.chance(50)) d2.v.push_back(1); }
     g.op(OP_STOP, 0).a = g.C.S_KILL;
     g.op(OP_DESTROY, 0);
   } else {
@@ -1049,7 +1071,23 @@ Plan gen_c16(uint64_t seed, const GenOpts &o) {
     sinks(r);
     if (r.f == 0) { r.a = r.b = 2; r.c = 0; g.p.starts.back().err.type = 0; g.p.starts.back().in.type = 0; }
     if (g.chance(10)) { g.p.starts.back().prog = (int) g.pick({ 4, 5 }); }
+    // "the first error": a sink that fails, then a stop sequence that fails too (a stubborn child and a policy that gives up)
+    if (r.c > 0 && g.chance(50)) {
+      StartSpec &rs = g.p.starts.back();
+      rs.stop[0] = g.C.S_TERMINATE; rs.stop[1] = (int) g.pick({ 0, 5, 30 }); rs.stop[2] = g.chance(50) ? g.C.S_WAIT : g.C.S_NOOP; rs.stop[3] = 5; rs.stop[4] = g.C.S_NOOP; rs.stop[5] = 0;
+      ChildSpec &rc = g.p.children[0];
+      rc.term = ChildSpec::IGNORE;
+      rc.script.insert(rc.script.end() - 1, Step{ Step::SLEEP, 0, 100000, 0 });
+    }
     if (g.chance(15)) add_random_fault(g, (int) g.p.ops.size() - 1, OP_RUN);
+    else if (g.chance(25)) {
+      // the program runs something again and collects the output in the same string variables, edited in place in between
+      Op r2 = g.p.ops.back();
+      r2.v.assign(1, 1);
+      r2.e = g.pick({ 0, 0, 1, 5 });
+      r2.c = 0;
+      g.p.ops.push_back(r2);
+    }
   }
   return g.p;
 }
@@ -1175,11 +1213,24 @@ Plan gen_c20(uint64_t seed, const GenOpts &o) {
     int64_t total = g.pick({ 10, 1000, 70000 });
     // thread 0 must have started the child before the others touch it: they begin with a sleep
     g.op(OP_SLEEP, -1, 1).a = 1;
-    Op &wr = g.op(OP_WRITE, 0, 1); wr.a = total; wr.c = 1; wr.d = g.pick({ 0, 7, 4096 });
+    bool polling = g.chance(40);  // the reader drains (poll + read), the writer asks poll whether stdin has room before it writes
+    if (polling) {
+      int np = (int) g.r.range(1, 3);
+      for (int q = 0; q < np; q++) {
+        Op &pw = g.op(OP_POLL, 0, 1); pw.v.push_back(0); pw.v.push_back((int64_t) g.C.E_IN); pw.a = g.pick({ 0, 5, 100 });  // (h = 0: sequenced after the handle's start like every other use of it)
+        Op &w1 = g.op(OP_WRITE, 0, 1); w1.a = total / np + (q == 0 ? total % np : 0); w1.c = 1; w1.d = g.pick({ 0, 7, 4096 });
+      }
+    } else {
+      Op &wr = g.op(OP_WRITE, 0, 1); wr.a = total; wr.c = 1; wr.d = g.pick({ 0, 7, 4096 });
+    }
     g.op(OP_CLOSE, 0, 1).a = g.C.STREAM_IN;
-    g.op(OP_SLEEP, -1, 2).a = 1;
-    Op &re = g.op(OP_READ, 0, 2); re.a = g.C.STREAM_ERR; re.b = 100; re.c = 1;
-    Op &ro = g.op(OP_READ, 0, 0); ro.a = g.C.STREAM_OUT; ro.b = g.pick({ 1, 100, 8192 }); ro.c = 1;
+    if (polling) {
+      Op &dr = g.op(OP_DRAIN, 0, 0); dr.a = 0; dr.b = 0;
+    } else {
+      g.op(OP_SLEEP, -1, 2).a = 1;
+      Op &re = g.op(OP_READ, 0, 2); re.a = g.C.STREAM_ERR; re.b = 100; re.c = 1;
+      Op &ro = g.op(OP_READ, 0, 0); ro.a = g.C.STREAM_OUT; ro.b = g.pick({ 1, 100, 8192 }); ro.c = 1;
+    }
     g.op(OP_SLEEP, -1, 0).a = 50;
     g.op(OP_WAIT, 0, 0).a = 2000;
     g.op(OP_SLEEP, -1, 0).a = 200;
@@ -1255,7 +1306,7 @@ std::vector<Outcome> outcomes_for(Kind k, bool child_side) {
     case K_dup2: return { { EINTR, 0, false }, { EBUSY, 0, false } };
     case K_fork: return { { EAGAIN, 0, false }, { ENOMEM, 0, false } };
     case K_execvp: return { { ENOENT, 0, false }, { EACCES, 0, false }, { ENOEXEC, 0, false }, { E2BIG, 0, false }, { ENOMEM, 0, false } };
-    case K_waitpid: return { { EINTR, 0, false } };
+    case K_waitpid: return { { EINTR, 0, false }, { ECHILD, 0, false } };  // ECHILD: SIGCHLD ignored / SA_NOCLDWAIT, or somebody else reaped
     case K_kill: return { { ESRCH, 0, false }, { EPERM, 0, false } };
     case K_sigaction: return { { EFAULT, 0, true } };  // EINVAL means "no such signal" and is skipped by design
     case K_sigmask: return { { EINVAL, 0, true } };
